@@ -56,6 +56,8 @@ func execNetworkSimplex(g *graph.DGraph, params graph.Params) {
 		vbalance(g)
 	case 2:
 		p.hbalance(g)
+		// balancing shifts whole subtrees and can move nodes above layer 0
+		normalize(g)
 	}
 }
 
